@@ -57,7 +57,7 @@ def point_based_value_iteration(
     if horizon is None:
         rmax = pomdp.state_action_reward_matrix.max().item()
         rmin = pomdp.state_action_reward_matrix.min().item()
-        horizon = value_convergence_epsilon / (rmax - rmin)
+        horizon = value_convergence_epsilon / max(rmax - rmin, np.finfo(float).eps)
         horizon = np.log(horizon) / np.log(pomdp.discount_rate)
         horizon = int(np.ceil(horizon))
 
